@@ -21,7 +21,63 @@ CONFIGS = {
 }
 
 
-def run(prop, tier, R, regression=False):
+# Random family (RandGraph.tla -> SearchRand.tla): seeds per tier and property.  (D, Aborts): D = 3 without interruption
+# for the value / mate / repetition invariants, D = 2 with one interruptible search first (free-running clock) for C06 / C07.
+RANDOM = {
+    "quick": {"C05": ([3, 5], 3, 0), "C06": ([6, 19, 9], 2, 1), "C07": ([20, 2], 2, 1), "C08": ([2, 6, 12], 3, 0), "C09": ([7, 11], 3, 0)},
+    "thorough": {"C05": (list(range(1, 41)), 3, 0), "C06": (list(range(1, 31)), 2, 1), "C07": (list(range(31, 41)), 2, 1),
+                 "C08": ([2, 3, 4, 5, 6, 9, 11, 12, 15, 24, 51, 54, 60], 3, 0), "C09": ([3, 7, 11, 15, 19, 23, 27, 31, 35, 39], 3, 0)},
+}
+
+
+def run_random(prop, tier, R, seed):
+    """Search.tla on graphs of the pseudo-random family: one exhaustive TLC run per graph."""
+    import json
+    import os
+    seeds, depth, aborts = RANDOM[tier][prop]
+    if tier == "thorough":
+        seeds = seeds + [1000 + 17 * seed + k for k in range(4)]        # a few graphs that depend on VERIF_SEED
+    work = vlib.workdir("randgraph_" + prop)
+    per = 4 if tier == "quick" else 4
+
+    def one(gs):
+        g = vlib.run_tlc("RandGraph", "RandGraph.cfg", env={"GSEED": gs}, workers=1, timeout=300)
+        vlib.tlc_must_be_clean(g, "RandGraph %d" % gs)
+        if not g.emitted:
+            raise ToolError("RandGraph.tla printed no graph for seed %d" % gs)
+        gp = os.path.join(work, "g%d.json" % gs)
+        json.dump(g.emitted[0], open(gp, "w"))
+        r = vlib.run_tlc("SearchRand", "SearchRand.cfg", env={"GRAPH": gp, "GD": depth, "GABORTS": aborts, "GBUDGET": 0},
+                         workers=per, xmx="6g", timeout=3600)
+        return gs, g.emitted[0], r
+    out = {"graphs": 0, "distinct_states": 0, "depth": depth, "interruptible_searches_first": aborts, "seeds": seeds,
+           "with_mate_in_one": 0, "with_avoidable_mate": 0, "with_repeated_history": 0}
+    try:
+        for gs, gr, r in vlib.parallel(one, seeds, workers=max(1, vlib.NCPU // per)):
+            if not r.clean:
+                log(r.out[-3000:])
+                raise ToolError("Search.tla: random graph %d (D=%d, Aborts=%d) does not satisfy its invariants (%s) - the design model "
+                                "and the code have to be re-examined" % (gs, depth, aborts, "; ".join(r.errors[:2])))
+            R.add_tlc(r)
+            mv, chk, h = gr["moves"], gr["chk"], gr["hist"]
+            mated = lambda q: not mv[q - 1] and chk[q - 1]
+            m1 = [c for c in mv[0] if mated(c)]
+            al = [c for c in mv[0] if any(mated(x) for x in mv[c - 1])]
+            out["graphs"] += 1
+            out["distinct_states"] += r.distinct
+            out["with_mate_in_one"] += bool(m1)
+            out["with_avoidable_mate"] += bool(not m1 and al and len(al) < len(mv[0]))
+            out["with_repeated_history"] += bool([q for q in set(h) if h.count(q) >= 2])
+    finally:
+        import shutil
+        shutil.rmtree(work, ignore_errors=True)
+    R.coverage["search_model_random_graphs"] = out
+    log("[%s] Search.tla on %d pseudo-random game graphs (D=%d, %d interruptible searches first): %d distinct states, all invariants hold"
+        % (prop, out["graphs"], depth, aborts, out["distinct_states"]))
+
+
+def run(prop, tier, R, regression=False, seed=1):
+    run_random(prop, tier, R, seed)
     out = {}
     for c in CONFIGS[tier][prop]:
         r = vlib.run_tlc("Search", "Search_%s.cfg" % c, workers=vlib.NCPU, xmx="14g", timeout=7200)
